@@ -199,6 +199,31 @@ def check(res):
     for s in sorted(sites_entered):
         if s not in entered:
             out.append(V("cleanup-skipped", f"the finally block of try@{s} never ran although its body had been entered", site=s))
+    # ... and it runs to its end: one interruption is one exception thrown into the plan, the clean-up it starts
+    # is not hit by a second one (asserted when that interruption is the only thing that happened)
+    single = len(hits) == 1 and not any((e.kind == "dev" and e.d.get("fault")) or (e.kind == "status" and not e.d["ok"]) for e in evs)
+    if single and not out:
+
+        def last_msg_site(nodes):
+            last_ = None
+            for n in _walk(nodes):
+                if n.get("op") == "msg":
+                    last_ = n.get("site")
+            return last_
+
+        for n in _walk(main_plan):
+            if n.get("op") == "try" and n.get("finally") and n["site"] in sites_entered and n["site"] in entered:
+                end = last_msg_site(n["finally"])
+                fin_sites = {x.get("site") for x in _walk(n["finally"]) if x.get("op") == "msg"}
+                fin_start = next((e.seq for e in evs if e.kind == "plan" and e.d["what"] == "yield" and e.d.get("site") in fin_sites), None)
+                # (when the request took effect: the engine's state change, not the moment the other thread asked)
+                req_seqs = [e.seq for e in evs if e.kind == "state" and e.d["new"] in ("pausing", "suspending", "aborting") and e.seq > clear.seq]
+                if fin_start is None or not req_seqs or max(req_seqs) > fin_start:
+                    continue  # the request struck the clean-up itself: it is the clean-up that is interrupted
+                if end is not None and end not in yielded:
+                    thrown = [e.d for e in evs if e.kind == "plan" and e.d["what"] == "thrown"]
+                    out.append(V("cleanup-cut-short", f"the finally block of try@{n['site']} started but its last message ({end}) was never reached; exceptions thrown into the plan: {[(t['exc'], t['site']) for t in thrown]}", site=n["site"]))
+                    break
     # runs closed; engine-closed ones with 'abort'
     runs, _ = docs_by_run(evs)
     for uid, docs in runs.items():
